@@ -279,6 +279,17 @@ def build() -> Check:
                   "; ".join(why_[:2]) + ": the decoded / encoded form depends on what this process handled before - a different wire dictionary with the same key "
                   "(operation ids repeat across executions) comes back as the first one's object" if why_ else "")
     ck.floor("codec_functions_checked_for_purity", n_pure, 30)
+    # R4 equality, not only the instant (h3_C20 #1, #2): the JSON reader returns aware UTC datetimes. Python never compares a naive datetime equal to an
+    # aware one, and (PEP 495) an aware datetime whose offset depends on `fold` unequal to every datetime of another zone - botocore attaches
+    # dateutil.tz.tzlocal() to what it parses, so outside TZ=UTC such values are what from_dict is handed. For "back yields an equal object" to hold for
+    # every datetime the model would have to normalise its timestamps to UTC where objects are built; necessary condition: some normalisation exists.
+    ts_owner = [prog.cls("lambda_service", n) for n in ("Operation", "StepDetails", "WaitDetails")]
+    normalises = any(isinstance(n_, ast.Attribute) and n_.attr == "astimezone" for c_ in ts_owner for mn_ in ("from_dict", "__post_init__") if mn_ in c_.methods
+                     for n_ in ast.walk(c_.methods[mn_].node))
+    ck.ob("R4.timestamps-are-normalised-where-objects-are-built", fn_construct(ts_owner[0].methods["from_dict"]), normalises,
+          "Operation / StepDetails / WaitDetails keep whatever tzinfo they are given while the JSON reader always answers in UTC: a naive timestamp, or an aware one "
+          "with a rule-based zone inside a DST fold (what botocore's tzlocal() produces in a daylight-saving TZ), is not equal to itself after to_json_dict / "
+          "from_json_dict - the instant is kept, the object (and next_attempt_timestamp with it) is not equal")
     # R4 a millisecond value of 0 is a timestamp (the epoch): the JSON reader must test presence, not truthiness, before it converts
     tests0 = []
     for n_ in ast.walk(fj.node):
